@@ -9,10 +9,11 @@ import Spec.Routes
 import Spec.Args
 import Spec.RasterJudge
 import Spec.Purity
+import Spec.RasterLJudge
 
 namespace Spec
 
-def handlers : List (String → Req → Option String) := [handleCore, Vector.handle, Helpers.handle, Routes.handle, Args.handle, Raster.handle, Purity.handle]
+def handlers : List (String → Req → Option String) := [handleCore, Vector.handle, Helpers.handle, Routes.handle, Args.handle, Raster.handle, Purity.handle, RasterL.handle]
 
 def judgeLine (line : String) : String :=
   let (cmd, r) := parseReq line
